@@ -41,6 +41,37 @@ theorem graph_iterators_enumerate (g : G) (n : Nat) :
       cases hf : find n g.nodes <;> simp_all
     simp [G.outNodesIter, G.outNeighbors, RowQ.outNeighbors, this]
 
+/-- **iterators_absent_raise**: on a node that is not (or no longer) in the graph each of the four
+per-node iterator factories raises — like the four list queries — and nothing else happens (they
+are queries).  (Audit round 2: on the unchanged tree they read past the end of the node table.) -/
+theorem iterators_absent_raise (g : G) (n : Nat) (h : g.hasNode n = false) :
+    g.outNodesIter n = none ∧ g.inNodesIter n = none ∧ g.outEdgesIter n = none ∧ g.inEdgesIter n = none ∧
+    g.outNeighbors n = none ∧ g.inNeighbors n = none ∧ g.outEdges n = none ∧ g.inEdges n = none := by
+  have : g.rowOf n = none := by
+    unfold G.hasNode has at h; unfold G.rowOf
+    cases hf : find n g.nodes <;> simp_all
+  simp [G.outNodesIter, G.inNodesIter, G.outEdgesIter, G.inEdgesIter, G.outNeighbors, G.inNeighbors, G.outEdges, G.inEdges,
+    RowQ.outNeighbors, RowQ.inNeighbors, RowQ.outEdges, RowQ.inEdges, this]
+
+/-- … in particular for a node that has just been deleted, after any history -/
+theorem iterators_deleted_raise (d : Bool) (ops : List Op) (n : Nat) (hn : ((Graph.empty d).run ops).hasNode n = true) :
+    (((Graph.empty d).run ops).step (.deleteNode n)).outNodesIter n = none ∧
+    (((Graph.empty d).run ops).step (.deleteNode n)).inEdgesIter n = none := by
+  obtain ⟨g', h', _, hd⟩ := G.deleteNode_spec (consistent_inv d ops) hn
+  have hgone : (((Graph.empty d).run ops).step (.deleteNode n)).hasNode n = false := by
+    simp only [G.step, G.apply, h', GOut.state]; rw [hd.hasNode]; simp
+  have := iterators_absent_raise _ n hgone
+  exact ⟨this.1, this.2.2.2.1⟩
+
+/-- in a world in order the observer's per-node iterators never meet that case: the id of a
+registered node object is a node of the graph -/
+theorem observer_node_iterators_defined (w : World) (hw : WInv w) (k : Nat) (o : Obs) (hk : w.getObs k = some o)
+    (a : Obj) (id : Nat) (ha : find a o.Ng = some id) :
+    ∃ c, w.g.outNodesIter id = some c ∧ ∃ c', w.g.inEdgesIter id = some c' := by
+  have hl := (hw.obs k o hk).n_live a id ha
+  obtain ⟨r, hr⟩ := (G.hasNode_iff w.g id).mp hl
+  exact ⟨Cursor.mk0 (keys r.out), by simp [G.outNodesIter, G.rowOf, hr], Cursor.mk0 (vals r.inn), by simp [G.inEdgesIter, G.rowOf, hr]⟩
+
 /-- **observer iterators, all nodes / all edges**: in a world in order the observer's
 `allNodesIterator` (which walks the *graph's* node table and looks every id up) enumerates exactly
 `getAllNodes()` (which reads the observer's own `graphidToN_`), and `allEdgesIterator` exactly
